@@ -373,43 +373,45 @@ RESULT_FUNCS = ("vector.Vector._elementwise_operation", "vector.Vector.__radd__"
 
 
 def _result_sites(ctx) -> None:
-    from ..sites import all_sites, comp_of, is_never_none_expr, Resolver
-    from .c03 import _same_expr
+    from ..sites2 import all_sites2, element_values, is_never_none_term, leaves, strip_seq
+    from ..symx import NONE as SNONE
     prog = ctx.prog
     wanted = set(RESULT_FUNCS)
     n = 0
-    for s in all_sites(prog):
-        q = s.func.qualname
-        top = q
-        while prog.functions[top].parent:
-            top = prog.functions[top].parent
-        in_wrappers = s.func.cls in ("_String", "_Date") and s.func.name not in ("__init__", "_elementwise_compare")
-        if top not in wanted and not in_wrappers:
+    ords = {}
+    for s in all_sites2(prog):
+        owner = prog.functions.get(s.qual) or s.top
+        top = owner
+        while top.parent and top.parent in prog.functions:
+            top = prog.functions[top.parent]
+        in_wrappers = top.cls in ("_String", "_Date") and top.name not in ("__init__", "_elementwise_compare")
+        if top.qualname not in wanted and not in_wrappers:
             continue
         if s.kind not in ("Vector", "cls"):
             continue
         n += 1
-        dt = s.dtype
+        it = s.it
         ok, why = True, "no dtype: inferred from the stored values"
-        if dt is not None and not (isinstance(dt, ast.Constant) and dt.value is None):
-            res = Resolver(prog, s.func)
-            dts = res.resolve(dt) if isinstance(dt, ast.Name) else [dt]
-            for d in dts:
-                if isinstance(d, str):
+        if s.dtype is not None and s.dtype != SNONE:
+            for d in leaves(s.dtype):
+                if d == SNONE:
+                    continue
+                if d[0] == "param" and d[1] in s.top.params:
                     ok, why = False, "dtype comes from a parameter"
-                elif isinstance(d, ast.Call) and short(d.func) == "infer_dtype" and d.args and _same_expr(d.args[0], s.data):
+                elif d[0] == "call" and d[1] == ("name", "infer_dtype") and len(d[2]) == 1 and s.data is not None \
+                        and strip_seq(it, d[2][0]) == strip_seq(it, s.data):
                     why = "infer_dtype over the stored data"
-                elif short(d) == "DataType(object)":
-                    datas = res.resolve(s.data) if isinstance(s.data, ast.Name) else [s.data]
-                    if all(not isinstance(x, str) and comp_of(x) is not None and is_never_none_expr(comp_of(x).elt) for x in datas):
+                elif d == ("call", ("name", "DataType"), (("name", "object"),), ()):
+                    evs = [element_values(it, x) for x in leaves(s.data)]
+                    if evs and all(e is not None and all(is_never_none_term(it, v) for v, _ in e) for e in evs):
                         why = "object fallback over tuple displays"
                     else:
                         ok, why = False, "constant object dtype over data that may hold None"
                 else:
-                    ok, why = False, f"explicit dtype `{short(d, 50)}` instead of inference over the result values"
-        ctx.ob("d.result-sites", s.func, f"site:{s.call.lineno - s.func.lineno}:{short(s.data, 24) if s.data is not None else '-'}",
-               ok, why, s.call,
-               message=f"{q}: result constructed as `{short(s.call, 90)}` - {why}; the statement requires results to be typed by "
+                    ok, why = False, f"explicit dtype `{s.sh(d, 50)}` instead of inference over the result values"
+        k = ords[owner.qualname] = ords.get(owner.qualname, 0) + 1
+        ctx.ob("d.result-sites", owner, f"site:{k}", ok, why, s.node,
+               message=f"{owner.qualname}: result constructed as `{s.sh(s.call, 90)}` - {why}; the statement requires results to be typed by "
                        f"the inference rule applied to their values")
     ctx.extra["result_sites"] = n
 
